@@ -61,7 +61,26 @@ def lexCase (src : List Nat) : String :=
     else if t.id = Ecal.Lex.tERROR then "X"
     else "T" ++ toString t.id
   let isStr := toks.any fun t => t.id = Ecal.Lex.tSTRING
-  ",".intercalate (toks.map show1) ++ (if isStr then "\tnt=1" else "")
+  -- known finding quote-escape-unusable: a quoted (non-raw) literal that is closed by its own quote character and
+  -- whose body holds `\'`, or `\"` in the single-quoted form, always ends as a lexer error although ecal.md
+  -- promises escapes in both forms (the lexer treats the escaped quote as not closing, then hands a text to
+  -- strconv.Unquote that it rejects)
+  let quoteEsc : Bool :=
+    match src with
+    | q :: rest =>
+      (q = 34 || q = 39) && rest.getLast? = some q &&
+        (let rec has (l : List Nat) : Bool :=
+            match l with
+            | 92 :: 39 :: _ => true
+            | 92 :: 34 :: t => q = 39 || has t
+            | 92 :: _ :: t => has t
+            | _ :: t => has t
+            | [] => false
+          has rest.dropLast) &&
+        toks.any (fun t => t.id = Ecal.Lex.tERROR)
+    | [] => false
+  ",".intercalate (toks.map show1) ++ (if isStr then "\tnt=1" else "") ++
+    (if quoteEsc then "\tkf=quote-escape-unusable" else "")
 
 /-- ST: the expressions of one literal share a scope: `v` global (0 at the start), `w` defined by the literal's
     own expressions. State = (v, w, log). -/
@@ -145,7 +164,10 @@ def runCase (payload : String) : String :=
     match hexDecode lit, entries.mapM parseEntry with
     | some lit, some tab =>
       if flag = "R" then
-        hexEnc (evalLiteral false (fun _ => []) lit) ++ " -"
+        -- the string node with the flag the real lexer set: evalNode (Props/C14Node.raw_node_untouched)
+        match evalNode (σ := List String) [35] (fun lg _ => (EvOut.val [], lg)) [] false lit with
+        | Out.ok out _ => hexEnc out ++ " -"
+        | _ => "PANIC"
       else
         let cs := evaluated lit
         match cs.find? (fun c => (lookup tab c).isNone) with
@@ -155,7 +177,8 @@ def runCase (payload : String) : String :=
           -- the side-effect log; `impl_refines_spec` proves this equals the fold over the segmentation
           let evS : List String → List Nat → List Nat × List String := fun lg c =>
             match lookup tab c with | some e => (e.repl, lg ++ e.log) | none => ([], lg)
-          match impl evS [] lit with
+          -- the table holds the RENDERED outcome of each expression (value text, or marker + message)
+          match evalNode [35] (fun lg c => (EvOut.val (evS lg c).1, (evS lg c).2)) [] true lit with
           | Out.ok out log =>
             hexEnc out ++ " " ++ (if log.isEmpty then "-" else ".".intercalate log)
               ++ (if cs.isEmpty then "" else "\tnt=1")
